@@ -125,8 +125,8 @@ func runHandoff(p hparams) func(e *schedx.Exec) *schedx.Outcome {
 						} else {
 							o.Status = resp.StatusCode()
 							o.Body = string(resp.Body())
-							o.Echo = resp.Header("X-Echo")
-							resp.Close() // back to the pools, as a well-behaved caller does
+							o.Echo = strings.Clone(resp.Header("X-Echo")) // Header() aliases the pooled response buffer
+							resp.Close()                                  // back to the pools, as a well-behaved caller does
 						}
 						verifrt.YieldOn("caller.got:"+rq.ID, &obs)
 						obs = append(obs, o)
@@ -242,13 +242,13 @@ func firstLine(s string) string {
 func handoffScenarios() []schedx.Scenario {
 	var out []schedx.Scenario
 	add := func(name string, p hparams, q, d xplore.Bounds, pruneDeep bool) {
-		out = append(out, schedx.Scenario{Name: name, Params: p, Bounds: q, Deep: d, PruneQuick: true, PruneDeep: true, Run: runHandoff(p)})
+		out = append(out, schedx.Scenario{Name: name, Params: p, Bounds: q, Deep: d, PruneQuick: true, PruneDeep: true, Whole: true, Run: runHandoff(p)})
 	}
-	b2, b3 := xplore.Bounds{0, 2, 1, 0}, xplore.Bounds{0, 3, 2, 0}
+	b1, b2, b3 := xplore.Bounds{0, 1, 1, 0}, xplore.Bounds{0, 2, 1, 0}, xplore.Bounds{0, 3, 2, 0}
 	add("cancel-then-next", hparams{Callers: [][]hreq{{{ID: "r1", Cancel: true}, {ID: "r2"}}}}, b2, b3, false)
 	add("cancel-vs-fail-then-next", hparams{Callers: [][]hreq{{{ID: "r1", Cancel: true, Fail: true}, {ID: "r2"}}}}, b2, b3, false)
-	add("two-callers-one-cancelled", hparams{Callers: [][]hreq{{{ID: "r1", Cancel: true}}, {{ID: "r2"}}}}, b2, b3, false)
+	add("two-callers-one-cancelled", hparams{Callers: [][]hreq{{{ID: "r1", Cancel: true}}, {{ID: "r2"}}}}, b1, b2, false)
 	add("fail-then-next", hparams{Callers: [][]hreq{{{ID: "r1", Fail: true}, {ID: "r2"}}}}, b2, b3, false)
-	add("cancel-cancel-next", hparams{Callers: [][]hreq{{{ID: "r1", Cancel: true}, {ID: "r2", Cancel: true}, {ID: "r3"}}}}, b2, b2, false)
+	add("cancel-cancel-next", hparams{Callers: [][]hreq{{{ID: "r1", Cancel: true}, {ID: "r2", Cancel: true}, {ID: "r3"}}}}, b1, b2, false)
 	return out
 }
